@@ -374,7 +374,7 @@ impl Property for C02 {
     }
     fn required_labels(&self) -> Vec<String> {
         let mut v: Vec<String> = table().iter().map(|r| format!("row={}", r.name)).collect();
-        v.extend(["mode=iterator", "mode=sum-function", "mode=sum-linear", "mode=product", "collision", "cancellation", "regime=general", "regime=dyadic", "dv-with-recorded-value", "tiny-scalar-times-huge-coefficients", "same-operand-twice"].iter().map(|s| s.to_string()));
+        v.extend(["mode=iterator", "mode=sum-function", "mode=sum-linear", "mode=product", "collision", "cancellation", "regime=general", "regime=dyadic", "dv-with-recorded-value", "tiny-scalar-times-huge-coefficients", "same-operand-twice", "depth-two-expression"].iter().map(|s| s.to_string()));
         v
     }
     fn cases(&self, tier: Tier) -> usize {
@@ -403,6 +403,8 @@ impl Property for C02 {
                 ctx.label(format!("row={}", row.name));
                 let scaled = t.p(40);
                 let same = t.p(36);
+                // the result is used as an operand of a further operation (an expression of depth two)
+                let chain = if t.p(70) { 1 + t.choice(4) } else { 0 };
                 let mut a = gen_operand(t, row.lk, &ids, regime, ctx);
                 let unary = matches!(row.op, Op::Neg | Op::NegRef);
                 let mut b = if unary { Opd::F(0.0) } else { gen_operand(t, row.rk, &ids, regime, ctx) };
@@ -480,6 +482,49 @@ impl Property for C02 {
                 let got = (row.f)(&a, &b);
                 let what = || format!("{}: lhs = {:?}, rhs = {:?}", row.name, a, b);
                 compare(&format!("row={}", row.name), &got, &exact, &contrib, regime, &what)?;
+                // depth two: (a op b) combined with a third function, on either side. Whatever representation the first
+                // operation chose for its result, the second one must read it as the polynomial it stands for.
+                if chain != 0 && regime == Regime::Dyadic && !(scaled && row.op == Op::Mul) {
+                    let c = gen_operand(t, K::FN, &ids, regime, ctx).as_function();
+                    let pc = Poly::from_function(&c);
+                    let pg = Poly::from_function(&got);
+                    let (rg, rc) = (raw_terms(&got), raw_terms(&c));
+                    let mut contrib2: BTreeMap<Mono, (usize, f64, f64)> = BTreeMap::new();
+                    let (got2, exact2, opname) = match chain {
+                        1 | 2 => {
+                            for (k, v) in rg.iter().chain(rc.iter()) {
+                                add_contrib(&mut contrib2, k, *v, EPS);
+                            }
+                            if chain == 1 {
+                                (got.clone() + c.clone(), pg.add(&pc), "(lhs op rhs) + third")
+                            } else {
+                                (c.clone() + got.clone(), pg.add(&pc), "third + (lhs op rhs)")
+                            }
+                        }
+                        3 => {
+                            for (k, v) in rg.iter() {
+                                add_contrib(&mut contrib2, k, *v, EPS);
+                            }
+                            for (k, v) in rc.iter() {
+                                add_contrib(&mut contrib2, k, -*v, EPS);
+                            }
+                            (got.clone() - c.clone(), pg.sub(&pc), "(lhs op rhs) - third")
+                        }
+                        _ => {
+                            for (k1, c1) in &rg {
+                                for (k2, c2) in &rc {
+                                    let mut k = k1.clone();
+                                    k.extend_from_slice(k2);
+                                    add_contrib(&mut contrib2, &k, c1 * c2, EPS * (c1.abs() + c2.abs() + 1.0));
+                                }
+                            }
+                            (got.clone() * c.clone(), pg.mul(&pc), "(lhs op rhs) * third")
+                        }
+                    };
+                    ctx.label("depth-two-expression");
+                    let what2 = || format!("{opname} with {}: lhs = {:?}, rhs = {:?}, third = {:?}, first result = {:?}", row.name, a, b, c, got);
+                    compare(&format!("chain/row={}", row.name), &got2, &exact2, &contrib2, regime, &what2)?;
+                }
             }
             1 => {
                 // term iterator: sum of yielded (sorted ids, coefficient) pairs is the polynomial
